@@ -925,8 +925,8 @@ outer:
 				if rn == '{' {
 					buf.Reset()
 					for {
-						rn, _, _ := r.ReadRune()
-						if rn == '}' {
+						rn, _, err := r.ReadRune()
+						if err != nil || rn == '}' {
 							break
 						}
 						buf.WriteRune(rn)
